@@ -268,6 +268,7 @@ package template
 //@   ensures#names forall n string :: old(n in m.visibleNames) ==> (n in m.visibleNames)
 //@   ensures#freshname err == nil ==> !(result.Name in m.visibleNames)
 //@   ensures#oldvars forall v *Var :: old(allocated(v)) ==> *v == old(*v)
+//@   loop 0: invariant object == nil
 //@   returns#typename err == nil && replacement == nil ==> called("AddName") == 1
 //@   returns#replimports err == nil && replacement != nil ==> (forall p string :: (p in imports) ==> p == objectPkg.Types.Path())
 //@   returns#repltyp err == nil && replacement != nil ==> object != nil && v.typ == object.Type() && object == objectPkg.Types.Scope().Lookup(replacement.TypeName)
